@@ -40,6 +40,7 @@ func init() {
 	replayers["vwdec"] = replayVW
 	replayers["vwcex"] = replayVW
 	replayers["vwdec2"] = replayVW
+	replayers["vwpay"] = replayVW
 }
 
 const vwCexLine = "ok built=1 codes=1 spec=c1:961075 go=c1:961075 nofill=c1:786315"
@@ -59,6 +60,11 @@ func goVW(f []string) string {
 	switch f[0] {
 	case "vwcex":
 		return vwCexLine
+	case "vwpay":
+		if len(f) != 2 {
+			return "bad-op"
+		}
+		return goVP8L(unhx(f[1]))
 	case "vwdec", "vwdec2":
 		if len(f) != 4 {
 			return "bad-op"
@@ -668,12 +674,36 @@ func suiteVP8LWindow(rep *Report) error {
 		}
 		vwRLECodes = false
 	}
+	// (3c) leg `stream`: whole VP8L payloads of the random VP8L writer (gen_vp8l.go: any transform
+	// subset / order with their sub-images, colour cache, meta prefix codes, defects) through the MODEL
+	// of the level-0 sequence on the window reader (op vwpay) vs lossless.DecodeVP8L vs the specification
+	{
+		ns := 400 * rounds
+		for i := 0; i < ns; i++ {
+			r := NewRNG(rep.Seed, 40000+uint64(i))
+			var data []byte
+			var desc string
+			switch i % 8 {
+			case 5:
+				data, desc = SynVP8LNarrow(r)
+			case 6:
+				data, desc = SynVP8LLong(r, 0)
+			default:
+				data, desc = SynVP8L(r)
+			}
+			_ = desc
+			cases = append(cases, cs{line: "vwpay " + hx(data), tag: "stream"})
+		}
+	}
 	// (4) truncations of (1)/(2): the end-of-stream polling of the loop
 	{
 		r := NewRNG(rep.Seed, 424242)
 		n := len(cases)
 		for i := 1; i < n; i += 7 {
 			f := strings.Split(cases[i].line, " ")
+			if len(f) != 4 {
+				continue
+			}
 			data := unhx(f[3])
 			if len(data) < 24 {
 				continue
@@ -721,7 +751,7 @@ func suiteVP8LWindow(rep *Report) error {
 		l0, sv := vwStripSens(l)
 		okLine := strings.HasPrefix(l0, "ok")
 		rep.Count("result:" + strings.SplitN(gos[i]+" ", " ", 2)[0])
-		rep.Eval(okLine && c.st.copies > 0, []byte(c.line))
+		rep.Eval(okLine && (c.st.copies > 0 || cls == "stream"), []byte(c.line))
 		if fl := vwFlags(l); fl != "" {
 			rep.Count("group-flags(trivialCode,packed,trivialLiteral):" + fl)
 		}
@@ -752,6 +782,10 @@ func suiteVP8LWindow(rep *Report) error {
 				rep.Count("copy-span:<=32")
 			}
 		}
+		if l == "skip remap" {
+			rep.Count("stream:skipped(group remapping not modelled)")
+			continue
+		}
 		if gos[i] == "panic" {
 			rep.Add(Finding{Kind: "property", Property: "C05", Signature: "vp8lwindow:go-panic:decodeImageData",
 				Detail: fmt.Sprintf("(%s) %s: %s", c.tag, short(c.line, 200), pms[i]), Input: map[string]any{"op": op, "line": c.line}})
@@ -770,6 +804,9 @@ func suiteVP8LWindow(rep *Report) error {
 			}
 			if op == "vwdec2" {
 				sig = "vp8lwindow-model:readHuffmanCode"
+			}
+			if op == "vwpay" {
+				sig = "vp8lwindow-model:decodeImageStream"
 			}
 			rep.Add(Finding{Kind: "correspondence", Property: "C03", Signature: sig,
 				Detail: fmt.Sprintf("(%s) %s: go=%q lean=%q", c.tag, short(c.line, 160), short(gos[i], 200), short(l, 200)),
